@@ -28,7 +28,7 @@ def sh(cmd, cwd=None, env=None, timeout=3600):
 def confirm(prop):
     wt = '/tmp/wt_' + prop
     env = dict(os.environ, PYTHONPATH=wt, PYTHONDONTWRITEBYTECODE='1', PYTHONHASHSEED='0')
-    for n in (1, 2, 3, 4, 5):
+    for n in range(1, 10):
         diff = os.path.join(wt, 'mutant%d.diff' % n)
         demo = os.path.join(wt, 'demo%d.py' % n)
         if not os.path.exists(diff):
